@@ -47,6 +47,8 @@ def run(chk):
     chk.rule("R2", "the post-state of a op= b has the same exact tree as a op b")
     chk.rule("R3", "a relation constructor C(A,B) and its operator twin A op B -> C have identical exact trees")
     chk.rule("R5", "no relation function casts a computed value to a numeric type narrower than the quantity's own (no hidden loss of precision)")
+    chk.rule("R6", "aliasing safety: a compound assignment or setter that takes an operand by reference gives the same result when the operand "
+                   "is (a component of) the object itself as when it is a copy (`a -= a`, `q *= q.MutableValue()`)")
     chk.rule("R4", "std::abs/cbrt/exp/log/log2/log10/pow/sqrt on a dimensionless scalar is exactly that std function of the stored number")
     chk.assumptions += ["IEEE-754 evaluation of the source as written; the repository's own -ffast-math test build licenses re-association and is outside this claim",
                         "contraction operators (tensor . vector, tensor . tensor) are not component-wise and are decided by C09/C18 instead"]
@@ -153,6 +155,25 @@ def run(chk):
                         chk.violated("R4", inst, "returns %s, expected %s" % (ev.show(res)[:200], ev.show(want)), short(f["loc"]))
                 except ev.Inconclusive as x:
                     chk.inconclusive("R4", inst, str(x), short(f["loc"]))
+    # R6 aliasing safety of the mutating members of every quantity class
+    from .. import alias, quant
+    n_alias = 0
+    for T in NUMERIC:
+        F = facts.load(T, chk.tier)
+        for qn, q in sorted(quant.inventory(F).items()):
+            if q.kind == "base":
+                continue
+            for f, pts in alias.mutating_members_with_reference_params(F, qn):
+                inst = "%s(%s)" % (f["name"], ", ".join(strip_cvref(p).replace("PhQ::", "") + ("&" if facts.is_ref(p) else "") for p in pts))
+                loc = short(f.get("def_loc", f["loc"]))
+                try:
+                    probs = alias.check(F, f, qn, T)
+                    n_alias += 1
+                    (chk.violated if probs else chk.holds)("R6", inst, "; ".join(probs) or "same result whether a reference operand is a copy or lives inside the object", loc, nontrivial=False) \
+                        if probs else chk.holds("R6", inst, "same result whether a reference operand is a copy or lives inside the object", loc, nontrivial=False)
+                except ev.Inconclusive as x:
+                    chk.inconclusive("R6", inst, str(x), loc)
+    chk.coverage["alias_checked_members"] = n_alias
     if chk.tier == "thorough":
         # trusted-base reduction: the evaluator's terms agree with g++'s constant evaluator on every constexpr relation
         from .. import validate
